@@ -1,2 +1,30 @@
-import AgeModel
-def main : IO Unit := IO.println "agemodel"
+/-
+  agemodel — line-protocol driver. One request per line on stdin:
+  `<op> <arg> <arg> ...` (bytes in hex, `-` = empty); one reply line per request.
+  Runs the same definitions the theorems are about, instantiated with the
+  concrete primitives of AgeModel.Crypto.
+-/
+import AgeModel.Exec.StreamExec
+open AgeModel
+
+def dispatch (line : String) : String :=
+  match Wire.splitOn line.trimAscii.toString ' ' with
+  | [] => "bad-op"
+  | op :: args =>
+    match op with
+    | "ping" => "pong"
+    | "sw" => Exec.sw args
+    | "sr" => Exec.sr args
+    | "senc" => Exec.senc args
+    | "sdec" => Exec.sdec args
+    | _ => "bad-op"
+
+partial def loop (hin hout : IO.FS.Stream) : IO Unit := do
+  let line ← hin.getLine
+  if line.isEmpty then return ()
+  hout.putStrLn (dispatch line)
+  hout.flush
+  loop hin hout
+
+def main : IO Unit := do
+  loop (← IO.getStdin) (← IO.getStdout)
